@@ -71,6 +71,9 @@ def build_and_run(ctx, cases, nshards=None, profile='dbg', features=(), per_job_
     nshards = nshards or core.NCPU
     wdir = os.path.join(ctx.work, 'ws')
     os.makedirs(ctx.work, exist_ok=True)
+    # a crate with very many generated programs makes one rustc process need several GB: cap the programs per crate
+    nvariants = sum(len(c.variants) for c in cases)
+    nshards = max(nshards, min(64, -(-nvariants // 40)))
     shard_cases = core.split_shards(cases, nshards)
     shards = []
     where = {}      # progname -> (shard idx, file idx)
@@ -131,10 +134,27 @@ def build_and_run(ctx, cases, nshards=None, profile='dbg', features=(), per_job_
             with open(os.path.join(d, 'main.rs'), 'w') as f:
                 f.write('#![allow(warnings)]\n' + '\n'.join(mods) + '\nfn main() {\n   vmon::main_with(&[\n' + '\n'.join(table) + '\n   ]);\n}\n')
         if not progress:
-            break
+            if stats.get('build_retries'):
+                break
+            # no diagnostic names a program: a transient failure (a compiler process killed under memory pressure, ...): build once more, fewer jobs
+            stats['build_retries'] = 1
+            os.environ['CARGO_BUILD_JOBS'] = '4'
+            try:
+                bins, out = core.build_workspace(wdir, profile, sanitizer=sanitizer)
+            finally:
+                os.environ.pop('CARGO_BUILD_JOBS', None)
+            continue
         bins, out = core.build_workspace(wdir, profile, sanitizer=sanitizer)
     stats['build_s'] = round(time.time() - t0, 1)
     stats['build_output_tail'] = out[-1500:] if any(b is None for b in bins.values()) else ''
+    if any(b is None for b in bins.values()):
+        # keep the whole compiler output of a build failure that could not be attributed to a program
+        logdir = os.path.join(core.VERIF, 'replays', ctx.prop)
+        os.makedirs(logdir, exist_ok=True)
+        logpath = os.path.join(logdir, 'unattributed_build_failure_seed%d.log' % ctx.seed)
+        with open(logpath, 'w') as f:
+            f.write('\n'.join(l for l in out.split('\n') if not l.startswith(('WARNING: cannot determine', 'vec! ['))))
+        stats['build_failure_log'] = logpath
     for m, b in bins.items():
         if b is None:
             si = int(m[5:])
